@@ -139,7 +139,8 @@ fn positive_generic<F: Fl>(c: &Case, obs: &mut Obs) -> PResult {
         ensure!(ulps::<F>(hsem, want_hsem) <= 4, "C05/harmonic/sample_sem", "Harmonic::sample_sem = {hsem:e}, documented transform H^2 * se(1/x) = {want_hsem:e}");
         // H <= G <= A up to rounding
         let am = a_raw.sample_mean().to64();
-        let slack = 8.0 * F::U * am.abs() * (1.0 + (n as f64).ln());
+        // G = exp(mean of ln x) carries the rounding of the logarithms: relative error ~ u (1 + |ln G|)
+        let slack = 8.0 * F::U * am.abs() * (1.0 + (n as f64).ln() + gm.abs().ln().abs());
         ensure!(hm <= gm + slack && gm <= am + slack, "C05/mean_inequality", "harmonic {hm:e} <= geometric {gm:e} <= arithmetic {am:e} violated (slack {slack:e})");
         if nonconst {
             obs.nontrivial(&(F::IS32, c.conf.kind, c.conf.l().to_bits(), style, crate::engine::hash_of(&data.iter().map(|x| x.bits64()).collect::<Vec<_>>())));
